@@ -10,6 +10,7 @@ from .core import Property
 def gen_history(rng, cfg, spec, n_ops=None, ops_kinds=("evaluate",), dictgen=None):
     """Evaluation ops on the roots with near-pair dictionaries."""
     dg = dictgen or U.DictGen(rng, cfg)
+    dg.no_list_keys = set(dg.no_list_keys) | gen.hashable_required_keys(spec)
     o = dg.fresh()
     ops = []
     n = n_ops if n_ops is not None else cfg["n_ops"]
